@@ -59,13 +59,16 @@ def b58check_payload(kind, s):
 
 
 # ---------------------------------------------------------------- Micheline binary encoding (C33)
-# tags of Michelson_v1_primitives.prim_encoding for the primitives used by spec/Constants.tla
-PRIM_TAG = {
-    'parameter': 0x00, 'storage': 0x01, 'code': 0x02, 'Elt': 0x04, 'Pair': 0x07, 'Some': 0x09, 'Unit': 0x0b,
-    'CAR': 0x16, 'CDR': 0x17, 'DIP': 0x1f, 'DROP': 0x20, 'DUP': 0x21, 'IF': 0x2c, 'NIL': 0x3d, 'PAIR': 0x42, 'PUSH': 0x43,
-    'SWAP': 0x4c, 'UNIT': 0x4f, 'bool': 0x59, 'int': 0x5b, 'list': 0x5f, 'map': 0x60, 'nat': 0x62, 'option': 0x63, 'or': 0x64,
-    'pair': 0x65, 'string': 0x68, 'bytes': 0x69, 'mutez': 0x6a, 'unit': 0x6c, 'operation': 0x6d, 'constant': 0x92,
-}
+# tags of Michelson_v1_primitives.prim_encoding: the table transcribed in spec/MichelineCodec.tla (PrimName), read from the spec text
+def _prim_table():
+    import os, re
+    txt = open(os.path.join(os.path.dirname(os.path.abspath(__file__)), '..', '..', 'spec', 'MichelineCodec.tla')).read()
+    names = re.findall(r'"([^"]+)"', re.search(r'^PrimName == <<(.*?)>>', txt, re.S | re.M).group(1))
+    assert len(names) == 159 and names[0x92] == 'constant' and names[0x07] == 'Pair'
+    return {n: i for i, n in enumerate(names)}
+
+
+PRIM_TAG = _prim_table()
 
 
 def _zarith(n):
